@@ -23,17 +23,26 @@
 EXTENDS BoltOps, Json
 
 Trace == ndJsonDeserialize("trace.ndjson")
-VARIABLES l, free, pend, readers, tree, flp, flc, vhwm, cur, w, fs, opt
-bvars == <<l, free, pend, readers, tree, flp, flc, vhwm, cur, w, fs, opt>>
+VARIABLES l, free, pend, readers, tree, flp, flc, vhwm, cur, w, fs, opt, sc
+bvars == <<l, free, pend, readers, tree, flp, flc, vhwm, cur, w, fs, opt, sc>>
 E == Trace[l]
 IsEvent(e) == l <= Len(Trace) /\ E.ev = e /\ l' = l + 1
 Expect(cond, what) == IF cond THEN TRUE ELSE PrintT(<<"MISMATCH", l, what, E>>) /\ FALSE
 
 NoW == [open |-> FALSE, txid |-> 0, hwm |-> 0, freed |-> {}, allocd |-> {}, runs |-> {}, written |-> {},
         synced |-> FALSE, metaEv |-> FALSE, metaw |-> FALSE, msynced |-> FALSE, nfl |-> {}, ntree |-> {}, nflc |-> {},
-        hasfl |-> FALSE, done |-> FALSE, failed |-> FALSE, grown |-> FALSE, rolled |-> FALSE, quiet |-> FALSE]
+        hasfl |-> FALSE, done |-> FALSE, failed |-> FALSE, grown |-> FALSE, rolled |-> FALSE, quiet |-> FALSE,
+        pc |-> 0, wr |-> 0]      \* pages allocated / write calls completed by this transaction (statistics)
 
 \* fs: the file system view.  unsynced = indices of the writes issued since the last completed sync.
+\* sc: the statistics DB.Stats() must report at a quiescent point (db.go:1466-1500, tx.go:365-385):
+\*   txn / open    read transactions started / open          (beginTx, removeTx)
+\*   pc / wr       pages allocated / write calls completed by all closed write transactions (TxStats merged in tx.close)
+\*   freeN, pendN, alloc, inuse   the free-list numbers published by the last closed writer (or by loading the free list)
+\*   last          the previous observation of the monotone counters
+SC0 == [txn |-> 0, open |-> 0, pc |-> 0, wr |-> 0, freeN |-> 0, pendN |-> 0, alloc |-> 0, inuse |-> 0,
+        last |-> [split |-> 0, spill |-> 0, rebalance |-> 0, nodes |-> 0, deref |-> 0, cursors |-> 0]]
+FreelistBytes(n) == 16 + 8 * (IF n >= 65535 THEN n + 1 ELSE n)
 FS0 == [len |-> 0, openedLen |-> 0, durMeta |-> 1, volMeta |-> 0, unsynced |-> {}, fresh |-> TRUE]
 
 VerPages(v) == tree[v] \cup flp[v]
@@ -50,7 +59,7 @@ PendOf(s) == {<<s[i][1], s[i][2], s[i][3]>> : i \in 1..Len(s)}
 
 TInit == /\ l = 1 /\ free = {} /\ pend = {} /\ readers = <<>>
          /\ tree = (1 :> {3}) /\ flp = (1 :> {2}) /\ flc = (1 :> {}) /\ vhwm = (1 :> 4)
-         /\ cur = 1 /\ w = NoW /\ fs = FS0
+         /\ cur = 1 /\ w = NoW /\ fs = FS0 /\ sc = SC0
          /\ opt = [ps |-> 4096, noFLSync |-> FALSE, noGrowSync |-> FALSE, maxSize |-> 0, readOnly |-> FALSE, allocSize |-> 16777216]
 
 OptOf(o) == [ps |-> o.pageSize, noFLSync |-> o.noFreelistSync, noGrowSync |-> o.noGrowSync, maxSize |-> o.maxSize,
@@ -62,26 +71,26 @@ PredictedFileSize(h, mm) == GrowSize(mm, (h + 1) * opt.ps, opt.allocSize)
 TReset == /\ IsEvent("Reset")
           /\ free' = {} /\ pend' = {} /\ readers' = <<>>
           /\ tree' = (1 :> {3}) /\ flp' = (1 :> {2}) /\ flc' = (1 :> {}) /\ vhwm' = (1 :> 4)
-          /\ cur' = 1 /\ w' = NoW /\ fs' = FS0 /\ opt' = OptOf(E.opts)
+          /\ cur' = 1 /\ w' = NoW /\ fs' = FS0 /\ opt' = OptOf(E.opts) /\ sc' = SC0
 
 \* Close + Open.  Nothing is pending in memory after a reopen; the free list is re-established by LoadFreelist*.
 TReopen == /\ IsEvent("Reopen")
            /\ Expect(~w.open /\ RTx(readers) = {}, "reopen with a transaction open")
            /\ pend' = {} /\ free' = {} /\ readers' = <<>> /\ opt' = [OptOf(E.opts) EXCEPT !.ps = opt.ps]
-           /\ fs' = [fs EXCEPT !.openedLen = fs.len]
+           /\ fs' = [fs EXCEPT !.openedLen = fs.len] /\ sc' = SC0
            /\ UNCHANGED <<tree, flp, flc, vhwm, cur, w>>
 
 \* ------------------------------------------------------------------ free list (re)construction
 TLoadPage == /\ IsEvent("LoadFreelistPage")
              /\ Expect(flp[cur] # {} /\ ToSet(E.free) = flc[cur] /\ E.pend = <<>>,
                        <<"free list read from the page differs from what was persisted", flc[cur]>>)
-             /\ free' = ToSet(E.free) /\ pend' = {}
+             /\ free' = ToSet(E.free) /\ pend' = {} /\ sc' = [sc EXCEPT !.freeN = Len(E.free)]
              /\ UNCHANGED <<readers, tree, flp, flc, vhwm, cur, w, fs, opt>>
 \* C13: a free list rebuilt by scanning equals everything unreachable (= free + pending that would have been persisted)
 TLoadScan == /\ IsEvent("LoadFreelistScan")
              /\ Expect(flp[cur] = {} /\ ToSet(E.free) = ReloadByScan(vhwm[cur], tree[cur], {}) /\ E.pend = <<>>,
                        <<"free list rebuilt by scanning differs from the unreachable set", ReloadByScan(vhwm[cur], tree[cur], {})>>)
-             /\ free' = ToSet(E.free) /\ pend' = {}
+             /\ free' = ToSet(E.free) /\ pend' = {} /\ sc' = [sc EXCEPT !.freeN = Len(E.free)]
              /\ UNCHANGED <<readers, tree, flp, flc, vhwm, cur, w, fs, opt>>
 
 \* ------------------------------------------------------------------ readers
@@ -92,12 +101,14 @@ TBeginRead == /\ IsEvent("BeginRead")
               /\ IF opt.readOnly THEN readers' = readers
                  ELSE /\ readers' = Inc(readers, E.txid)
                       /\ Expect(~E.nofl /\ SameBag(readers', E.readers), "reader not registered with the free list")
+              /\ sc' = [sc EXCEPT !.txn = @ + 1, !.open = @ + 1]
               /\ UNCHANGED <<free, pend, tree, flp, flc, vhwm, cur, w, fs, opt>>
 TEndRead == /\ IsEvent("EndRead")
             /\ IF opt.readOnly THEN readers' = readers
                ELSE /\ Expect(E.txid \in RTx(readers), "EndRead of an unknown reader")
                     /\ readers' = Dec(readers, E.txid)
                     /\ Expect(~E.nofl /\ SameBag(readers', E.readers), "reader not removed from the free list")
+            /\ sc' = [sc EXCEPT !.open = @ - 1]
             /\ UNCHANGED <<free, pend, tree, flp, flc, vhwm, cur, w, fs, opt>>
 
 \* ------------------------------------------------------------------ writer
@@ -114,7 +125,7 @@ TBeginWrite ==
         /\ free' = lf /\ pend' = lp
    /\ w' = [NoW EXCEPT !.open = TRUE, !.txid = E.txid, !.hwm = vhwm[cur], !.quiet = (RTx(readers) = {})]
    /\ Expect(E.hwm = vhwm[cur], <<"writer starts from a wrong high-water mark", vhwm[cur]>>)
-   /\ UNCHANGED <<readers, tree, flp, flc, vhwm, cur, fs, opt>>
+   /\ UNCHANGED <<readers, tree, flp, flc, vhwm, cur, fs, opt, sc>>
 
 TFree == /\ IsEvent("Free")
          /\ Expect(w.open /\ E.txid = w.txid, "Free outside the write transaction")
@@ -123,18 +134,18 @@ TFree == /\ IsEvent("Free")
               /\ Expect(pg \cap w.allocd = {}, "freed a page allocated by the same transaction")
               /\ pend' = pend \cup {<<w.txid, q, E.a>> : q \in pg}
               /\ w' = [w EXCEPT !.freed = @ \cup pg]
-         /\ UNCHANGED <<free, readers, tree, flp, flc, vhwm, cur, fs, opt>>
+         /\ UNCHANGED <<free, readers, tree, flp, flc, vhwm, cur, fs, opt, sc>>
 
 TAlloc == /\ IsEvent("Alloc")
           /\ Expect(w.open /\ E.txid = w.txid /\ ~w.metaEv, "Alloc outside the write transaction")
           /\ LET pg == Run(E.pgid, E.n) IN
                /\ IF E.fromFree
                   THEN /\ Expect(pg \subseteq free, <<"allocated pages that are not free (C09)", pg \ free>>)
-                       /\ free' = free \ pg /\ w' = [w EXCEPT !.allocd = @ \cup pg, !.runs = @ \cup {<<E.pgid, E.n>>}]
+                       /\ free' = free \ pg /\ w' = [w EXCEPT !.allocd = @ \cup pg, !.runs = @ \cup {<<E.pgid, E.n>>}, !.pc = @ + E.n]
                   ELSE /\ Expect(E.pgid = w.hwm, <<"allocation at the end does not start at the high-water mark", w.hwm>>)
                        /\ Expect(~HasRun(free, E.n), "file extended although a free run fits (C09/C10)")
                        /\ free' = free
-                       /\ w' = [w EXCEPT !.allocd = @ \cup pg, !.runs = @ \cup {<<E.pgid, E.n>>}, !.hwm = @ + E.n]
+                       /\ w' = [w EXCEPT !.allocd = @ \cup pg, !.runs = @ \cup {<<E.pgid, E.n>>}, !.hwm = @ + E.n, !.pc = @ + E.n]
                /\ Expect(E.hwm = w'.hwm, <<"high-water mark", w'.hwm>>)
                /\ Expect(E.pgid >= 2, "meta page handed out")
                \* an allocation at the end of the file is only admitted if the growth it implies stays within MaxSize
@@ -142,7 +153,7 @@ TAlloc == /\ IsEvent("Alloc")
                          <<"allocation admitted although the file would have to grow beyond MaxSize (C18)", PredictedFileSize(E.hwm, E.datasz), opt.maxSize>>)
                /\ Expect(pg \cap Visible = {}, <<"allocated a page of a visible version (C06)", pg \cap Visible>>)
                /\ Expect(pg \cap PP = {}, "allocated a pending page")
-          /\ UNCHANGED <<pend, readers, tree, flp, flc, vhwm, cur, fs, opt>>
+          /\ UNCHANGED <<pend, readers, tree, flp, flc, vhwm, cur, fs, opt, sc>>
 
 TAllocRefused == /\ IsEvent("AllocRefused")
                  /\ Expect(w.open /\ opt.maxSize > 0, "size refusal without MaxSize")
@@ -152,7 +163,7 @@ TAllocRefused == /\ IsEvent("AllocRefused")
                     IN Expect(GrowSize(mm, minsz, opt.allocSize) > opt.maxSize,
                               <<"allocation refused although the file would stay within MaxSize (C18)", GrowSize(mm, minsz, opt.allocSize), opt.maxSize>>)
                  /\ w' = [w EXCEPT !.failed = TRUE]
-                 /\ UNCHANGED <<free, pend, readers, tree, flp, flc, vhwm, cur, fs, opt>>
+                 /\ UNCHANGED <<free, pend, readers, tree, flp, flc, vhwm, cur, fs, opt, sc>>
 
 \* The writer announces the meta page it is about to publish (under metalock).
 TMetaWrite ==
@@ -168,20 +179,20 @@ TMetaWrite ==
          /\ Expect(E.root \in ntree, "root page is not part of the new tree")
          /\ Expect(flp[cur] \subseteq w.freed, "old freelist page not freed (C07)")
          /\ w' = [w EXCEPT !.metaEv = TRUE, !.nfl = nfl, !.ntree = ntree, !.nflc = free \cup PP, !.hasfl = E.freelist # -1]
-   /\ UNCHANGED <<free, pend, readers, tree, flp, flc, vhwm, cur, fs, opt>>
+   /\ UNCHANGED <<free, pend, readers, tree, flp, flc, vhwm, cur, fs, opt, sc>>
 
 \* ------------------------------------------------------------------ I/O
 Pages(off, len) == (off \div opt.ps)..((off + len - 1) \div opt.ps)
 
 TIOInit == /\ IsEvent("IO") /\ ~w.open /\ E.kind = "write" /\ fs.fresh /\ E.off = 0 /\ ~E.fail
            /\ fs' = [fs EXCEPT !.len = E.len, !.fresh = FALSE, !.unsynced = {E.idx}]
-           /\ UNCHANGED <<free, pend, readers, tree, flp, flc, vhwm, cur, w, opt>>
+           /\ UNCHANGED <<free, pend, readers, tree, flp, flc, vhwm, cur, w, opt, sc>>
 TIOIdle == /\ IsEvent("IO") /\ ~w.open /\ E.kind \in {"sync", "mmap"} /\ ~E.fail
            /\ fs' = IF E.kind = "sync" THEN [fs EXCEPT !.unsynced = {}] ELSE fs
-           /\ UNCHANGED <<free, pend, readers, tree, flp, flc, vhwm, cur, w, opt>>
+           /\ UNCHANGED <<free, pend, readers, tree, flp, flc, vhwm, cur, w, opt, sc>>
 TIOMmap == /\ IsEvent("IO") /\ w.open /\ E.kind = "mmap"
            /\ w' = IF E.fail THEN [w EXCEPT !.failed = TRUE] ELSE w
-           /\ UNCHANGED <<free, pend, readers, tree, flp, flc, vhwm, cur, fs, opt>>
+           /\ UNCHANGED <<free, pend, readers, tree, flp, flc, vhwm, cur, fs, opt, sc>>
 \* C18: the file is only ever extended up to MaxSize (or not at all if it was already longer).
 SizeOK(n) == opt.maxSize > 0 => n <= Max(Max(opt.maxSize, fs.openedLen), fs.len)
 TIOTruncate ==
@@ -191,12 +202,12 @@ TIOTruncate ==
    /\ Expect(SizeOK(E.off), <<"file grown beyond MaxSize (C18)", opt.maxSize>>)
    /\ IF E.fail THEN /\ w' = [w EXCEPT !.failed = TRUE] /\ fs' = fs
       ELSE /\ w' = [w EXCEPT !.grown = TRUE] /\ fs' = [fs EXCEPT !.len = Max(fs.len, E.off), !.unsynced = @ \cup {E.idx}]
-   /\ UNCHANGED <<free, pend, readers, tree, flp, flc, vhwm, cur, opt>>
+   /\ UNCHANGED <<free, pend, readers, tree, flp, flc, vhwm, cur, opt, sc>>
 TIOFsync == /\ IsEvent("IO") /\ E.kind = "fsync"
             /\ Expect(w.open /\ w.grown, "file sync without a preceding truncate")
             /\ w' = IF E.fail THEN [w EXCEPT !.failed = TRUE] ELSE w
             /\ fs' = IF E.fail THEN fs ELSE [fs EXCEPT !.unsynced = {}]
-            /\ UNCHANGED <<free, pend, readers, tree, flp, flc, vhwm, cur, opt>>
+            /\ UNCHANGED <<free, pend, readers, tree, flp, flc, vhwm, cur, opt, sc>>
 TIOWriteData ==
    /\ IsEvent("IO") /\ w.open /\ E.kind = "write" /\ E.off >= 2 * opt.ps
    /\ LET pg == Pages(E.off, E.len) IN
@@ -209,9 +220,9 @@ TIOWriteData ==
         /\ IF E.fail THEN /\ w' = [w EXCEPT !.failed = TRUE]
                           /\ fs' = [fs EXCEPT !.unsynced = @ \cup {E.idx},
                                               !.len = IF E.short > 0 THEN Max(fs.len, E.off + E.short) ELSE fs.len]
-           ELSE /\ w' = [w EXCEPT !.written = @ \cup pg]
+           ELSE /\ w' = [w EXCEPT !.written = @ \cup pg, !.wr = @ + 1]
                 /\ fs' = [fs EXCEPT !.len = Max(fs.len, E.off + E.len), !.unsynced = @ \cup {E.idx}]
-   /\ UNCHANGED <<free, pend, readers, tree, flp, flc, vhwm, cur, opt>>
+   /\ UNCHANGED <<free, pend, readers, tree, flp, flc, vhwm, cur, opt, sc>>
 \* The meta write is the publication point: from here on db.meta() designates the new version.
 TIOWriteMeta ==
    /\ IsEvent("IO") /\ w.open /\ E.kind = "write" /\ E.off < 2 * opt.ps
@@ -227,7 +238,7 @@ TIOWriteMeta ==
            /\ flc' = Put(flc, w.txid, w.nflc) /\ vhwm' = Put(vhwm, w.txid, w.hwm)
            /\ cur' = w.txid
            /\ fs' = [fs EXCEPT !.volMeta = w.txid, !.unsynced = @ \cup {E.idx}]
-   /\ UNCHANGED <<free, pend, readers, opt>>
+   /\ UNCHANGED <<free, pend, readers, opt, sc>>
 TIOSync ==
    /\ IsEvent("IO") /\ w.open /\ E.kind = "sync"
    /\ IF ~w.synced
@@ -237,13 +248,13 @@ TIOSync ==
       ELSE /\ Expect(w.metaw /\ ~w.msynced, "unexpected sync")
            /\ IF E.fail THEN w' = [w EXCEPT !.failed = TRUE] /\ fs' = fs
               ELSE w' = [w EXCEPT !.msynced = TRUE] /\ fs' = [fs EXCEPT !.unsynced = {}, !.durMeta = w.txid, !.volMeta = 0]
-   /\ UNCHANGED <<free, pend, readers, tree, flp, flc, vhwm, cur, opt>>
+   /\ UNCHANGED <<free, pend, readers, tree, flp, flc, vhwm, cur, opt, sc>>
 
 \* ------------------------------------------------------------------ end of the write transaction
 TCommitDone == /\ IsEvent("CommitDone")
                /\ Expect(w.open /\ w.metaw /\ w.msynced /\ ~w.failed /\ E.txid = w.txid, "commit reported done without written and synced meta (C01)")
-               /\ w' = [w EXCEPT !.done = TRUE]
-               /\ UNCHANGED <<free, pend, readers, tree, flp, flc, vhwm, cur, fs, opt>>
+               /\ w' = [w EXCEPT !.done = TRUE, !.wr = @ + 1]
+               /\ UNCHANGED <<free, pend, readers, tree, flp, flc, vhwm, cur, fs, opt, sc>>
 
 MinePend == {r \in pend : r[1] = w.txid}
 TRollbackUser ==
@@ -252,7 +263,7 @@ TRollbackUser ==
    /\ pend' = pend \ MinePend
    /\ Expect(ToSet(E.free) = free /\ PendOf(E.pend) = pend', "rollback did not restore the free list exactly (C09)")
    /\ w' = [w EXCEPT !.done = TRUE, !.rolled = TRUE]
-   /\ UNCHANGED <<free, readers, tree, flp, flc, vhwm, cur, fs, opt>>
+   /\ UNCHANGED <<free, readers, tree, flp, flc, vhwm, cur, fs, opt, sc>>
 
 \* Physical rollback (tx.go:323-343): drop this transaction's pending records, then reload the
 \* free list from the committed state.  C08: afterwards the page space is partitioned again and
@@ -272,7 +283,7 @@ TRollbackPhysical ==
       /\ Expect(E.nomap \/ PartitionOK(vhwm[cur], tree[cur], flp[cur], lf, PendPages(lp)), "page accounting broken after the failed commit (C08)")
       /\ free' = lf /\ pend' = lp
    /\ w' = [w EXCEPT !.done = TRUE, !.rolled = TRUE]
-   /\ UNCHANGED <<readers, tree, flp, flc, vhwm, cur, fs, opt>>
+   /\ UNCHANGED <<readers, tree, flp, flc, vhwm, cur, fs, opt, sc>>
 
 NeededVersions == {cur} \cup RTx(readers)
 TEndWrite ==
@@ -285,6 +296,10 @@ TEndWrite ==
    /\ Expect(free \cap Visible = {}, "free page in a visible version")
    /\ Expect(FreeDisjoint /\ NoMeta, "a page is both free and pending, or a meta page is free / pending (C09)")
    /\ Expect((w.quiet /\ ~w.rolled) => \A r \in pend : r[1] = w.txid, <<"pages of older transactions still pending although no reader was open at begin (C10)", {r \in pend : r[1] # w.txid}>>)
+   \* tx.close publishes the free-list numbers and merges the transaction's counters (committed or not)
+   /\ sc' = [sc EXCEPT !.pc = @ + w.pc, !.wr = @ + w.wr, !.freeN = Cardinality(free), !.pendN = Cardinality(pend),
+                       !.alloc = (Cardinality(free) + Cardinality(pend)) * opt.ps,
+                       !.inuse = FreelistBytes(Cardinality(free) + Cardinality(pend))]
    /\ w' = NoW
    /\ tree' = Keep(tree, NeededVersions) /\ flp' = Keep(flp, NeededVersions)
    /\ flc' = Keep(flc, NeededVersions) /\ vhwm' = Keep(vhwm, NeededVersions)
@@ -302,14 +317,23 @@ TDecoded ==
    /\ Expect(E.fileLen >= vhwm[cur] * opt.ps, "file shorter than the high-water mark (C07)")
    /\ Expect(E.fileLen = fs.len, <<"file length", fs.len>>)
    /\ Expect(opt.maxSize > 0 => E.fileLen <= Max(opt.maxSize, fs.openedLen), "file longer than MaxSize (C18)")
-   /\ UNCHANGED <<free, pend, readers, tree, flp, flc, vhwm, cur, w, fs, opt>>
+   /\ UNCHANGED <<free, pend, readers, tree, flp, flc, vhwm, cur, w, fs, opt, sc>>
 
 TStats == /\ IsEvent("Stats")
           /\ Expect(w.open \/ (E.freeN = Cardinality(free) /\ E.pendN = Cardinality(PP)), <<"DB.Stats", Cardinality(free), Cardinality(PP)>>)
+          \* the published numbers are exactly those of the last closed writer / of loading the free list
+          /\ Expect(w.open \/ (E.freeN = sc.freeN /\ E.pendN = sc.pendN /\ E.freeAlloc = sc.alloc /\ E.freelistInuse = sc.inuse),
+                    <<"DB.Stats free-list numbers; specification says", sc.freeN, sc.pendN, sc.alloc, sc.inuse>>)
+          /\ Expect(w.open \/ (E.txN = sc.txn /\ E.openTxN = sc.open), <<"DB.Stats read-transaction counters; specification says", sc.txn, sc.open>>)
+          /\ Expect(w.open \/ (E.pageCount = sc.pc /\ E.pageAlloc = sc.pc * opt.ps /\ E.write = sc.wr),
+                    <<"DB.Stats TxStats: pages allocated / bytes / write calls; specification says", sc.pc, sc.pc * opt.ps, sc.wr>>)
+          /\ LET now == [split |-> E.split, spill |-> E.spill, rebalance |-> E.rebalance, nodes |-> E.nodes, deref |-> E.deref, cursors |-> E.cursors] IN
+               /\ Expect(\A f \in DOMAIN now : now[f] >= sc.last[f], <<"a statistics counter went backwards", sc.last>>)
+               /\ sc' = [sc EXCEPT !.last = now]
           /\ UNCHANGED <<free, pend, readers, tree, flp, flc, vhwm, cur, w, fs, opt>>
 TCheck == /\ IsEvent("Check")
           /\ Expect(E.errors = 0, "Tx.Check reports errors on a state produced by committed transactions (C07/C19)")
-          /\ UNCHANGED <<free, pend, readers, tree, flp, flc, vhwm, cur, w, fs, opt>>
+          /\ UNCHANGED <<free, pend, readers, tree, flp, flc, vhwm, cur, w, fs, opt, sc>>
 
 \* C01: one reconstructed post-crash image.  `persisted` = the unsynced writes (by I/O index) that reached
 \* the disk completely, `partial` those that reached it in part; the in-flight meta write is
@@ -323,7 +347,7 @@ TCrashProbe ==
         /\ Expect(E.obs.content = E.versions[ToString(expected)], "recovered content differs from the acknowledged / in-flight state (C01)")
         /\ Expect(E.obs.checkErrs = 0 /\ E.obs.decodeProblems = 0, "recovered database fails its integrity check (C01)")
         /\ Expect(E.obs.followUp, "recovered database does not accept a further transaction (C01)")
-   /\ UNCHANGED <<free, pend, readers, tree, flp, flc, vhwm, cur, w, fs, opt>>
+   /\ UNCHANGED <<free, pend, readers, tree, flp, flc, vhwm, cur, w, fs, opt, sc>>
 
 TNext == \/ TReset \/ TReopen \/ TLoadPage \/ TLoadScan \/ TBeginRead \/ TEndRead \/ TBeginWrite \/ TFree \/ TAlloc
          \/ TAllocRefused \/ TMetaWrite \/ TIOInit \/ TIOIdle \/ TIOMmap \/ TIOTruncate \/ TIOFsync \/ TIOWriteData
